@@ -201,6 +201,41 @@ def check_one(case):
                     break
         except Exception as e:
             out.viol('perdictable-raised', '%s with value columns named val raised %s: %s' % (label, type(e).__name__, e), exc=type(e).__name__, generic=True, **sig)
+    # ---------------- ONE lifted function (and one defaults dict) serving several calls: a call that leaves the defaulted inputs out must not change what the next call does
+    if data is None and tabs and dfl and len(dfl) < len(names):
+        out.sub()
+        src2 = 'def g(%s):\n    return _f(%s)\n' % (', '.join(n if n not in dfl else "%s='%s:own'" % (n, n) for n in sorted(names, key=lambda n: n in dfl)),
+                                                  ', '.join('%s=%s' % (n, n) for n in names))
+        ns2 = {'_f': f2}
+        exec(src2, ns2)
+        g = ns2['g']
+        dd = dict(defaults)
+        try:
+            pg = perdictable(g, on='k', defaults=dd)
+            part = {n: v for n, v in inputs().items() if n not in dfl}
+            pg(**part)                                   # the defaulted inputs are left to g's own defaults
+            after_first = dict(dd)
+            calls[:] = []
+            again = pg(**inputs())
+            fresh = perdictable(g, on='k', defaults=dict(defaults))(**inputs())
+            out.call(3)
+            jd = dict(defaults)
+            join(part, on='k', defaults=jd)
+            out.call()
+            # (perdictable itself adds 'data' / 'expiry' entries to the dict it was given; only the entries the caller put there are compared)
+            kept_entries = lambda d: {k: d[k] for k in defaults if k in d}
+            after_first, dd, jd = kept_entries(after_first), kept_entries(dd), kept_entries(jd)
+            if after_first != defaults or dd != defaults or jd != defaults:
+                out.viol('defaults-mutated', '%s: of the entries of the defaults dict handed to %s only %r are left (was %r)' % (label, 'join' if jd != defaults else 'perdictable', jd if jd != defaults else dd, defaults),
+                         via='join' if jd != defaults else 'perdictable', **sig)
+            same_res = (isinstance(again, dictable) and isinstance(fresh, dictable) and list(again.get('k', [])) == list(fresh.get('k', [])) and list(again.get('data', [])) == list(fresh.get('data', []))) \
+                if isinstance(fresh, dictable) else again == fresh
+            if not same_res:
+                out.viol('call-history-dependent', '%s: after a call without the defaulted inputs %s the same lifted function returns %r, a fresh one returns %r' % (label, dfl, again, fresh), **sig)
+            elif isinstance(fresh, dictable) and surviving is not None and list(fresh['k']) != surviving:
+                out.viol('wrong-keys', '%s (f with own defaults): result keys %s, expected %s' % (label, list(fresh['k']), surviving), missing=True, extra=False, order_only=False, **sig)
+        except Exception as e:
+            out.viol('perdictable-raised', '%s: calling one lifted function twice (first without the defaulted inputs) raised %s: %s' % (label, type(e).__name__, e), exc=type(e).__name__, twice=True, **sig)
     # ---------------- join() directly
     if data is None and tabs:
         out.sub()
